@@ -1317,6 +1317,56 @@ impl Azks {
 
 type AppendOnlyHelper = (Vec<AzksElement>, Vec<AzksElement>);
 
+/// Verification hooks (compiled only with `--cfg akd_verif`): thin public wrappers around the
+/// crate-private [AzksElementSet] so that an external harness can exercise it.
+#[cfg(akd_verif)]
+pub mod verif_hooks {
+    use super::*;
+
+    /// `AzksElementSet::from`: returns (is_binary_searchable, elements)
+    pub fn element_set_from(nodes: Vec<AzksElement>) -> (bool, Vec<AzksElement>) {
+        match AzksElementSet::from(nodes) {
+            AzksElementSet::BinarySearchable(n) => (true, n),
+            AzksElementSet::Unsorted(n) => (false, n),
+        }
+    }
+
+    fn build(binary_searchable: bool, nodes: Vec<AzksElement>) -> AzksElementSet {
+        if binary_searchable {
+            AzksElementSet::BinarySearchable(nodes)
+        } else {
+            AzksElementSet::Unsorted(nodes)
+        }
+    }
+
+    /// `AzksElementSet::partition`
+    pub fn element_set_partition(
+        binary_searchable: bool,
+        nodes: Vec<AzksElement>,
+        prefix_label: NodeLabel,
+    ) -> (Vec<AzksElement>, Vec<AzksElement>) {
+        let (l, r) = build(binary_searchable, nodes).partition(prefix_label);
+        (l.to_vec(), r.to_vec())
+    }
+
+    /// `AzksElementSet::get_longest_common_prefix`
+    pub fn element_set_lcp<TC: Configuration>(
+        binary_searchable: bool,
+        nodes: Vec<AzksElement>,
+    ) -> NodeLabel {
+        build(binary_searchable, nodes).get_longest_common_prefix::<TC>()
+    }
+
+    /// `AzksElementSet::contains_prefix`
+    pub fn element_set_contains_prefix(
+        binary_searchable: bool,
+        nodes: Vec<AzksElement>,
+        prefix_label: &NodeLabel,
+    ) -> bool {
+        build(binary_searchable, nodes).contains_prefix(prefix_label)
+    }
+}
+
 #[cfg(test)]
 mod tests {
     use super::*;
